@@ -108,6 +108,20 @@ def make_tc(sut, call):
     return pyn.test_case(f"var_0 = {sut.name}_.{call}")
 
 
+def _late_started_thread_during(s, i):
+    """Did the thread of an earlier test take its FIRST step after test i's thread had been started?"""
+    starts = [k for k, (_who, lab, _nxt) in enumerate(s.log) if lab == "thread.start"]
+    if i >= len(starts):
+        return False
+    begin = starts[i]
+    end = starts[i + 1] if i + 1 < len(starts) else len(s.log)
+    for t in range(1, i + 1):                      # threads of the earlier tests (thread k+1 runs test k)
+        first = next((k for k, (who, _lab, _nxt) in enumerate(s.log) if who == t), None)
+        if first is not None and begin < first < end:
+            return True
+    return False
+
+
 def judge(col, seq, solo, obs, s, data, rank, prop="C32"):
     """Compare one complete schedule's observations with the oracle."""
     name = "+".join(c.split("(")[0] for c in seq)
@@ -143,6 +157,11 @@ def judge(col, seq, solo, obs, s, data, rank, prop="C32"):
                          f"code objects {extra_co}"))
         elif o != ref:
             what = "timeout" if o["timeout"] and not ref["timeout"] else "missing-coverage"
+            if s is not None and _late_started_thread_during(s, i):
+                # root cause visible in the schedule: the thread of an EARLIER test, abandoned by a timeout
+                # before it had taken a single step, took its first step while this test was running
+                # (ExecutionTracer.__enter__ lets whichever thread enters last own the tracer)
+                what += "/late-started-abandoned-thread"
             viol.append((f"C32|{name}|{fn}@{i}|later-result-lost:{what}", f"got {o} expected {ref}"))
     if sys.stdout is not sys.__stdout__ or sys.stderr is not sys.__stderr__:
         viol.append((f"C32|{name}|end|stdout-not-restored", ""))
